@@ -67,6 +67,57 @@ fn frozen_format(r: &RunCtx, src: &str, opts: &Opts) -> Option<Value> {
     None
 }
 
+/// Groups of reorderable declarations (use items, use lists, mod and extern crate declarations)
+/// whose names and aliases are ordered differently by the ASCII order of the editions up to 2021
+/// and by the version sort of 2024 (digit runs, leading zeros, underscores, letter case), with
+/// several declarations of the same name under different aliases.
+fn gen_reorder_groups(c: &mut Choices<'_>) -> Value {
+    const STEMS: &[&str] = &["serde", "v", "x_", "Foo", "foo", "m2024", "a", "Z", "u", "U", "lib_", "core"];
+    const TAILS: &[&str] = &["", "1", "2", "9", "10", "010", "1_0", "_v9", "_v10", "_V10", "8", "16", "128", "_", "__a", "A", "b"];
+    let mut name = |c: &mut Choices<'_>| format!("{}{}", *c.pick(STEMS), *c.pick(TAILS));
+    let mut src = String::new();
+    let groups = 1 + c.below(3);
+    for g in 0..groups {
+        let kind = c.below(4);
+        let n = 2 + c.below(6);
+        // few distinct names, so that the same name recurs under different aliases
+        let pool: Vec<String> = (0..(1 + c.below(3))).map(|_| name(c)).collect();
+        let mut seen: Vec<String> = vec![];
+        let mut list: Vec<String> = vec![];
+        for _ in 0..n {
+            let base = if c.chance(2, 3) { c.pick(&pool).clone() } else { name(c) };
+            // the alias often shares its stem with the other aliases of the group
+            let alias = if kind != 2 && c.chance(1, 2) {
+                if c.flip() {
+                    format!(" as {}{}", pool[0].trim_end_matches(|ch: char| ch.is_ascii_digit() || ch == '_'), *c.pick(TAILS))
+                } else {
+                    format!(" as {}", name(c))
+                }
+            } else {
+                String::new()
+            };
+            let decl = format!("{base}{alias}");
+            if seen.contains(&decl) {
+                continue;
+            }
+            seen.push(decl.clone());
+            match kind {
+                0 => src.push_str(&format!("use g{g}::{decl};\n")),
+                1 => list.push(decl),
+                2 => src.push_str(&format!("mod {decl};\n")),
+                _ => src.push_str(&format!("extern crate {decl};\n")),
+            }
+        }
+        if kind == 1 {
+            src.push_str(&format!("use g{g}::{{{}}};\n", list.join(", ")));
+        }
+        src.push('\n');
+    }
+    src.push_str("fn main() {}\n");
+    let opts = gen_conf(c, &SPACE);
+    json!({"src": src, "opts": opts_to(&opts), "origin": "reorder-groups", "layout": 0})
+}
+
 impl Property for C09 {
     fn id(&self) -> &'static str {
         "C09"
@@ -82,7 +133,7 @@ impl Property for C09 {
         }
     }
     fn rule(&self) -> &'static str {
-        "corpus grid cells and generated programs x random options (style_edition excluded from the draw); each case is formatted under style editions 2015, 2018, 2021 and 2024 by the working tree (in-process) and by the frozen reference build of the pinned sources; oracle: (a) the 2015/2018/2021 outputs of the working tree are identical, (b) for every released edition the working tree's output equals the reference output byte for byte whenever the reference formats without error; non-trivial = some output differs from the input; distinct by case content"
+        "corpus grid cells, generated programs and generated groups of reorderable declarations (names and aliases on which the ASCII order and the version sort disagree, the same name under several aliases) x random options (style_edition excluded from the draw); each case is formatted under style editions 2015, 2018, 2021 and 2024 by the working tree (in-process) and by the frozen reference build of the pinned sources; oracle: (a) the 2015/2018/2021 outputs of the working tree are identical, (b) for every released edition the working tree's output equals the reference output byte for byte whenever the reference formats without error; non-trivial = some output differs from the input; distinct by case content"
     }
     fn assumptions(&self) -> Vec<&'static str> {
         vec!["/verif/frozen is a byte copy of src/ and config_proc_macro/ at the audited commit, built with the same toolchain and profile; both sides run the same request through the same public API"]
@@ -96,6 +147,9 @@ impl Property for C09 {
         Some(cell_case(&cell))
     }
     fn generate(&self, c: &mut Choices<'_>, _g: &GenCtx) -> Value {
+        if c.chance(1, 4) {
+            return gen_reorder_groups(c);
+        }
         let p = gen_prog(c, &ProgSpace::default());
         let wild = c.weighted(&[3, 3, 2, 2]);
         let comment_p = if c.chance(1, 3) { 3 } else { 0 };
